@@ -1821,7 +1821,7 @@ class PseudoNetCDFFile(PseudoNetCDFSelfReg, object):
             else:
                 return time
         elif 'TFLAG' in self.variables.keys():
-            dates = self.variables['TFLAG'][:][:, 0, 0]
+            dates = np.array(self.variables['TFLAG'][:][:, 0, 0])
             if (dates == -635).any():
                 warn('Dates of -635 set to 1970001')
                 dates[dates == -635] = 1970001
